@@ -8,7 +8,12 @@ only = sys.argv[2:]
 seen = set()
 for pid, P in props.PROPS.items():
     if only and pid not in only: continue
+    if "cmd" in P: continue
     for m in P["mc"][tier]:
         key = (m["name"], tuple(P["invariants"]))
-        r = vlib.run_mc(props.mc_cfg(m, P["invariants"]), "/verif/work/mcsize", m["name"], workers=12, timeout=3500)
-        print(pid, m["name"], r.get("states"), r["wall_s"], r["ok"], r["violated"], flush=True)
+        if "cmd" in P: continue
+        try:
+            r = vlib.run_mc(props.mc_cfg(m, P["invariants"]), "/verif/work/mcsize-" + tier, pid + "-" + m["name"], workers=props.MC_WORKERS, timeout=int(os.environ.get("MC_TIMEOUT", "1500")))
+            print(pid, m["name"], r.get("states"), r["wall_s"], r["ok"], r["violated"], flush=True)
+        except Exception as e:
+            print(pid, m["name"], "ERR", str(e)[:200].replace("\n", " "), flush=True)
